@@ -1,4 +1,5 @@
-"""C08 Market token accounting is conserved and funding payouts stay backed — rounding & reporting clauses only.
+"""C08 Market token accounting is conserved and funding payouts stay backed — rounding & reporting clauses here,
+per-action conservation identities in gmxsa/h_B_c08.py (keys conserve:*).
 
 Decided (structural, necessary):
  * set_deltas packs the PAYER index (delta_funding_amount_per_size[flags_to_index(longs_pay_shorts, c)]) with
@@ -38,17 +39,20 @@ def run(ctx):
         "the min price, and the insufficient-payment callback is shown to be called (and to emit the store event) exactly "
         "under paid_in_collateral_amount < cost_amount.")
     ctx.not_decided = (
-        "Conservation of the market's holdings over histories and non-negativity of the funding residual: ledger "
-        "identities over whole histories with rounding at many sites; no static argument is offered (only the rounding "
-        "directions and the shortfall report that the identity relies on are checked). CollateralProcessor's routing of "
-        "every cost to a pool or claimable bucket is not decided here.")
+        "Conservation over whole histories and non-negativity of the funding residual (only the per-action identities, "
+        "rounding directions and shortfall report it relies on are checked). Inside DecreasePosition: the fully-paid fee "
+        "branch (credit for_pool+for_receiver vs debit paid_in_collateral_amount: equal by arithmetic only), the collateral "
+        "part of funding fees (credited to no pool by design), claimable-collateral buckets, insolvent close, the swaps (C04) "
+        "and index-token amounts (position impact pool).")
     for rid, txt in (
             ("round-pack", "set_deltas: payer index packed with round_up=true over payer OI; receiver index with false over receiver OI"),
             ("round-prims", "pack/unpack: the true arm reaches only ceil primitives, the false arm only floor primitives"),
             ("round-unpack", "pending_funding_fees: payable unpacked with true, claimables with false; latest/position index of the same kind and flag"),
             ("pay-cost", "do_pay_for_cost rounds the cost up at pick_price(false) of the output token; funding cost = amount * that price"),
             ("insufficient-report", "shortfall callback called under paid_in_collateral < cost with the right values; store impl emits the event"),
-            ("no-token-cpi", "store's revertible-market impls of the model traits reach no token-program CPI")):
+            ("no-token-cpi", "store's revertible-market impls of the model traits reach no token-program CPI"),
+            ("conserve", "per action and token side, on every success path: the deltas applied to the token pools (liquidity, swap impact, "
+                         "claimable fees, collateral sum) sum, as linear forms over opaque atoms, to the tokens paid in minus the tokens paid out")):
         ctx.rule(rid, txt)
     _pack_sites(ctx, prog)
     _prims(ctx, prog)
@@ -56,6 +60,8 @@ def run(ctx):
     _pay_cost(ctx, prog)
     _report(ctx, prog)
     _no_cpi(ctx, prog)
+    from .. import h_B_c08
+    h_B_c08.run(ctx, prog)
 
 
 def _find_call(e, name_re):
